@@ -250,8 +250,8 @@ def step (d : DS) (ws : List String) : DS × String :=
         match parseMint arg with
         | none => (d, "bad-op")
         | some (p, h, pick) =>
-          let r := mintStep false d.feeOn d.st c p h pick
-          let (tag, extra) := match mint false d.st c.sender p h pick with
+          let r := mintStep true d.feeOn d.st c p h pick
+          let (tag, extra) := match mint true d.st c.sender p h pick with
             | .error e => (some (mintErrTag e), "-")
             | .ok o => (none, s!"p{o.paid}")
           ({ d with st := r.1 }, answer r tag extra)
